@@ -35,10 +35,38 @@ def prop_meta():
     return json.load(open(os.path.join(ROOT, 'properties_map.json')))
 
 
+def replay(path):
+    """re-run a recorded violation: renders the unit from /repo's current tree and replays the
+    counterexample natively (Kani concrete playback); for Verus-only failures re-runs the obligation."""
+    if not os.path.exists(path):
+        print('no such replay file: ' + path)
+        return 2
+    rec = json.load(open(path))
+    print(json.dumps({k: rec[k] for k in rec if k not in ('counterexample_playback_test',)}, indent=1)[:3000])
+    unit_name, rest = rec['obligation'].split('/', 1)
+    backend, oid = rest.split('::', 1)
+    units = [u for u in engine.load_units() if u['name'] == unit_name]
+    if not units:
+        return 2
+    u = units[0]
+    ex = render.Extraction(REPO)
+    if backend == 'kani' and rec.get('counterexample_playback_test'):
+        bdir = os.path.join(BUILD, 'replay', u['name'] + '_kani')
+        engine.write_kani_crate(u, u['kani'], bdir, ex)
+        res = engine.native_replay(u, oid, rec['counterexample_playback_test'], bdir)
+        print('native replay on the functions extracted from /repo now:', 'FAILS (violation reproduced)' if res['confirmed_natively'] else 'does not fail')
+        print(res['output_tail'][-800:])
+        return 1 if res['confirmed_natively'] else 0
+    print('no concrete counterexample recorded (no-failing-input-found); re-run ./check %s to re-decide the obligation' % rec['property'])
+    return 0
+
+
 def main(argv):
     if len(argv) < 2:
         print('usage: check <PROPERTY-ID> [--tier quick|thorough]')
         return 2
+    if argv[1] == '--replay':
+        return replay(argv[2] if len(argv) > 2 else '')
     pid = argv[1]
     tier = os.environ.get('VERIF_TIER') or 'quick'
     if '--tier' in argv:
